@@ -140,7 +140,7 @@ def kani_phase(prop, tier, known, res, work, only_set):
     natives = []
     for o in select(obs, tier):
         role = o.get("role", "deciding")
-        if role in ("fallback", "excl", "native_fallback"):
+        if role in ("fallback", "excl", "native_fallback", "disabled"):
             continue  # run on demand / via its owner
         if role == "native_bounded":
             if not only_set or o["name"] in only_set:
